@@ -568,6 +568,23 @@ class Idioms3(ast.NodeTransformer):
                                    attr=node.func.attr, ctx=ast.Load()),
                 args=[node.func.value] + node.args,
                 keywords=node.keywords), node)
+        # mask algebra: np.logical_not(a) -> ~a, np.logical_and(a, b) ->
+        # a & b, np.logical_or(a, b) -> a | b
+        if fn in ("np.logical_not", "numpy.logical_not") and len(
+                node.args) == 1 and not node.keywords:
+            return ast.copy_location(ast.UnaryOp(op=ast.Invert(),
+                                                 operand=node.args[0]), node)
+        if fn in ("np.logical_and", "numpy.logical_and", "np.logical_or",
+                  "numpy.logical_or") and len(node.args) == 2 and \
+                not node.keywords:
+            op = ast.BitAnd() if fn.endswith("and") else ast.BitOr()
+            return ast.copy_location(ast.BinOp(left=node.args[0], op=op,
+                                               right=node.args[1]), node)
+        # np.transpose(x) -> x.T
+        if fn in ("np.transpose", "numpy.transpose") and len(
+                node.args) == 1 and not node.keywords:
+            return ast.copy_location(ast.Attribute(
+                value=node.args[0], attr="T", ctx=ast.Load()), node)
         # np.array(x, copy=True) -> np.copy(x); np.absolute -> np.abs
         if fn in ("np.array", "numpy.array") and len(node.args) == 1 and \
                 len(node.keywords) == 1 and node.keywords[0].arg == "copy" \
@@ -713,8 +730,33 @@ class Idioms3(ast.NodeTransformer):
 
     def visit_Expr(self, node):
         self.generic_visit(node)
-        # setattr(x, "name", v) -> x.name = v
         c = node.value
+        # D.update((k, v) for k in IT) -> for k in IT: D[k] = v
+        if isinstance(c, ast.Call) and isinstance(c.func, ast.Attribute) \
+                and c.func.attr == "update" and len(c.args) == 1 and \
+                not c.keywords and isinstance(
+                    c.args[0], (ast.GeneratorExp, ast.ListComp)) and len(
+                    c.args[0].generators) == 1 and isinstance(
+                    c.args[0].elt, ast.Tuple) and len(
+                    c.args[0].elt.elts) == 2 and isinstance(
+                    c.func.value, ast.Name):
+            g = c.args[0].generators[0]
+            body = [ast.Assign(targets=[ast.Subscript(
+                value=c.func.value, slice=c.args[0].elt.elts[0],
+                ctx=ast.Store())], value=c.args[0].elt.elts[1])]
+            if g.ifs:
+                body = [ast.If(test=g.ifs[0] if len(g.ifs) == 1 else
+                               ast.BoolOp(op=ast.And(), values=list(g.ifs)),
+                               body=body, orelse=[])]
+            loop = ast.For(target=g.target, iter=g.iter, body=body,
+                           orelse=[], type_comment=None)
+            for n_ in ast.walk(loop.target):
+                if isinstance(n_, ast.Name):
+                    n_.ctx = ast.Store()
+            ast.copy_location(loop, node)
+            ast.fix_missing_locations(loop)
+            return loop
+        # setattr(x, "name", v) -> x.name = v
         if isinstance(c, ast.Call) and norm(c.func) == "setattr" and \
                 len(c.args) == 3 and not c.keywords and isinstance(
                     c.args[1], ast.Constant) and isinstance(
@@ -915,7 +957,27 @@ def filtered_loops(fn):
                             op=ast.And(), values=list(g.ifs))
                         cond = _rename(cond, g.target.id, st.target.id)
                         it = g.iter
-                        if not (isinstance(it, ast.Call) and norm(
+                        base = it
+                        while isinstance(base, (ast.Attribute, ast.Subscript,
+                                                ast.Call)):
+                            base = base.func if isinstance(
+                                base, ast.Call) else base.value
+                        bname = base.id if isinstance(base, ast.Name) else None
+                        mutated = bname is None or any(
+                            (isinstance(n, ast.Call) and isinstance(
+                                n.func, ast.Attribute) and n.func.attr in (
+                                    "pop", "remove", "append", "insert",
+                                    "clear", "update", "setdefault",
+                                    "popitem", "add", "discard", "extend")
+                             and any(isinstance(x, ast.Name) and x.id == bname
+                                     for x in ast.walk(n.func.value)))
+                            or (isinstance(n, (ast.Subscript, ast.Attribute))
+                                and isinstance(n.ctx, (ast.Store, ast.Del))
+                                and any(isinstance(x, ast.Name)
+                                        and x.id == bname
+                                        for x in ast.walk(n.value)))
+                            for s_ in st.body for n in ast.walk(s_))
+                        if mutated and not (isinstance(it, ast.Call) and norm(
                                 it.func) in ("list", "tuple", "sorted")):
                             it = ast.Call(func=ast.Name(id="list",
                                                         ctx=ast.Load()),
@@ -1180,66 +1242,105 @@ def inline_module_lambdas(tree):
 
 
 def counted_while(fn):
-    """`c = K` + `while c > 0: c -= 1; BODY` (or the decrement last, no
-    continue) with c used nowhere else -> `for c in range(K): BODY`"""
+    """`c = N` + `while c > 0: c -= 1; BODY` (or the decrement last, no
+    continue) with c used nowhere else -> `for c in range(N): BODY`;
+    with a flag, `flag = True` + `while flag and c > 0: c -= 1; BODY` ->
+    `for c in range(N): BODY; if not flag: break`."""
     for par in [fn] + list(_walk_own(fn)):
         for fld in ("body", "orelse", "finalbody"):
             blk = getattr(par, fld, None)
             if not isinstance(blk, list):
                 continue
-            for i in range(len(blk) - 1):
-                st, wh = blk[i], blk[i + 1]
-                if not (isinstance(st, ast.Assign) and len(st.targets) == 1
-                        and isinstance(st.targets[0], ast.Name)
-                        and isinstance(st.value, ast.Constant)
-                        and isinstance(st.value.value, int)
-                        and not isinstance(st.value.value, bool)
-                        and st.value.value >= 0
-                        and isinstance(wh, ast.While) and not wh.orelse):
+            for i in range(1, len(blk)):
+                wh = blk[i]
+                if not (isinstance(wh, ast.While) and not wh.orelse
+                        and wh.body):
                     continue
-                c = st.targets[0].id
                 t = wh.test
-                ok_test = (isinstance(t, ast.Name) and t.id == c) or (
-                    isinstance(t, ast.Compare) and len(t.ops) == 1
-                    and isinstance(t.left, ast.Name) and t.left.id == c
-                    and isinstance(t.comparators[0], ast.Constant)
-                    and ((isinstance(t.ops[0], ast.Gt)
-                          and t.comparators[0].value == 0)
-                         or (isinstance(t.ops[0], ast.GtE)
-                             and t.comparators[0].value == 1)
-                         or (isinstance(t.ops[0], ast.NotEq)
-                             and t.comparators[0].value == 0)))
-                if not ok_test or not wh.body:
+                flag = None
+                if isinstance(t, ast.BoolOp) and isinstance(
+                        t.op, ast.And) and len(t.values) == 2:
+                    names = [v for v in t.values if isinstance(v, ast.Name)]
+                    rest = [v for v in t.values
+                            if not isinstance(v, ast.Name)]
+                    if len(names) == 1 and len(rest) == 1:
+                        flag, t = names[0].id, rest[0]
+                if not (isinstance(t, ast.Compare) and len(t.ops) == 1
+                        and isinstance(t.left, ast.Name)
+                        and isinstance(t.comparators[0], ast.Constant)
+                        and ((isinstance(t.ops[0], ast.Gt)
+                              and t.comparators[0].value == 0)
+                             or (isinstance(t.ops[0], ast.GtE)
+                                 and t.comparators[0].value == 1)
+                             or (isinstance(t.ops[0], ast.NotEq)
+                                 and t.comparators[0].value == 0))) and \
+                        not (isinstance(t, ast.Name) and flag is None):
+                    continue
+                c = t.left.id if isinstance(t, ast.Compare) else t.id
+                # the initialisations directly before the loop
+                inits = {}
+                j = i - 1
+                while j >= 0 and isinstance(blk[j], ast.Assign) and len(
+                        blk[j].targets) == 1 and isinstance(
+                        blk[j].targets[0], ast.Name) and \
+                        blk[j].targets[0].id in (c, flag) and \
+                        blk[j].targets[0].id not in inits:
+                    inits[blk[j].targets[0].id] = blk[j]
+                    j -= 1
+                if c not in inits or (flag and flag not in inits):
+                    continue
+                n_expr = inits[c].value
+                if isinstance(n_expr, ast.Constant):
+                    if not (isinstance(n_expr.value, int) and not isinstance(
+                            n_expr.value, bool) and n_expr.value >= 0):
+                        continue
+                elif not _pure_arg(n_expr):
+                    continue
+                if flag and not (isinstance(inits[flag].value, ast.Constant)
+                                 and inits[flag].value.value is True):
                     continue
 
-                def is_dec(s):
-                    return isinstance(s, ast.AugAssign) and isinstance(
-                        s.op, ast.Sub) and isinstance(
-                        s.target, ast.Name) and s.target.id == c and \
-                        isinstance(s.value, ast.Constant) and \
-                        s.value.value == 1
+                def is_dec(s_):
+                    return isinstance(s_, ast.AugAssign) and isinstance(
+                        s_.op, ast.Sub) and isinstance(
+                        s_.target, ast.Name) and s_.target.id == c and \
+                        isinstance(s_.value, ast.Constant) and \
+                        s_.value.value == 1
                 body = None
                 if is_dec(wh.body[0]):
                     body = wh.body[1:]
                 elif is_dec(wh.body[-1]) and not any(
                         isinstance(n, ast.Continue)
-                        for s in wh.body for n in ast.walk(s)):
+                        for s_ in wh.body for n in ast.walk(s_)):
                     body = wh.body[:-1]
                 if body is None:
                     continue
                 others = [n for n in ast.walk(fn) if isinstance(n, ast.Name)
                           and n.id == c]
-                # the assignment, the test, the decrement target
                 if len(others) != 3:
                     continue
+                if flag and any(isinstance(n, ast.Continue)
+                                for s_ in body for n in ast.walk(s_)
+                                if not isinstance(s_, (ast.For, ast.While))):
+                    continue
+                tail = []
+                if flag:
+                    tail = [ast.If(test=ast.UnaryOp(
+                        op=ast.Not(), operand=ast.Name(id=flag,
+                                                       ctx=ast.Load())),
+                        body=[ast.Break()], orelse=[])]
                 loop = ast.For(
                     target=ast.Name(id=c, ctx=ast.Store()),
                     iter=ast.Call(func=ast.Name(id="range", ctx=ast.Load()),
-                                  args=[st.value], keywords=[]),
-                    body=body or [ast.Pass()], orelse=[], type_comment=None)
+                                  args=[n_expr], keywords=[]),
+                    body=(body or [ast.Pass()]) + tail, orelse=[],
+                    type_comment=None)
                 ast.copy_location(loop, wh)
                 ast.fix_missing_locations(loop)
-                blk[i:i + 2] = [loop]
+                blk[i] = loop
+                blk.remove(inits[c])
+                # (the flag's initial value stays: it is still read after
+                # the loop when the loop body never runs)
                 return counted_while(fn) or True
     return False
 
@@ -1346,4 +1447,78 @@ def flag_finally(fn):
                 blk.remove(init[0])
                 done = True
                 break
+    return done
+
+
+def local_sorts(fn):
+    """`xs.sort()` on a local that only ever holds lists created in this
+    function -> `xs = sorted(xs)` (no other object can observe the
+    difference between sorting in place and re-binding)"""
+    params = {a.arg for a in fn.args.args + fn.args.kwonlyargs
+              + fn.args.posonlyargs}
+    done = False
+    for par in [fn] + list(_walk_own(fn)):
+        for fld in ("body", "orelse", "finalbody"):
+            blk = getattr(par, fld, None)
+            if not isinstance(blk, list):
+                continue
+            for i, st in enumerate(blk):
+                if not (isinstance(st, ast.Expr) and isinstance(
+                        st.value, ast.Call) and isinstance(
+                        st.value.func, ast.Attribute)
+                        and st.value.func.attr == "sort"
+                        and not st.value.args and not st.value.keywords
+                        and isinstance(st.value.func.value, ast.Name)):
+                    continue
+                name = st.value.func.value.id
+                if name in params:
+                    continue
+                defs = [a for a in ast.walk(fn) if isinstance(a, ast.Assign)
+                        and any(isinstance(t, ast.Name) and t.id == name
+                                for t in a.targets)]
+                fresh = bool(defs) and all(
+                    isinstance(a.value, (ast.List, ast.ListComp)) or (
+                        isinstance(a.value, ast.Call) and norm(
+                            a.value.func) in ("list", "sorted"))
+                    for a in defs)
+                # the list must not have been handed to anyone else
+                parent = {}
+                for p_ in ast.walk(fn):
+                    for c_ in ast.iter_child_nodes(p_):
+                        parent[id(c_)] = p_
+                escaped = False
+                for n in ast.walk(fn):
+                    if not (isinstance(n, ast.Name) and n.id == name
+                            and isinstance(n.ctx, ast.Load)):
+                        continue
+                    up = parent.get(id(n))
+                    harmless = (
+                        isinstance(up, ast.Attribute)      # xs.sort/append
+                        or (isinstance(up, ast.Subscript) and up.value is n)
+                        or (isinstance(up, (ast.For, ast.comprehension))
+                            and up.iter is n)
+                        or isinstance(up, (ast.Return, ast.Compare))
+                        or (isinstance(up, (ast.Tuple, ast.List))
+                            and isinstance(parent.get(id(up)), ast.Return))
+                        or (isinstance(up, ast.Call) and norm(up.func) in (
+                            "len", "sorted", "list", "tuple", "set", "any",
+                            "all", "enumerate", "zip", "np.array",
+                            "np.asarray", "str", "repr"))
+                        or isinstance(up, (ast.JoinedStr, ast.FormattedValue))
+                        or (isinstance(up, ast.Call) and isinstance(
+                            up.func, ast.Attribute)
+                            and up.func.attr in ("join", "format")))
+                    if not harmless:
+                        escaped = True
+                if not fresh or escaped:
+                    continue
+                new = ast.Assign(
+                    targets=[ast.Name(id=name, ctx=ast.Store())],
+                    value=ast.Call(func=ast.Name(id="sorted", ctx=ast.Load()),
+                                   args=[ast.Name(id=name, ctx=ast.Load())],
+                                   keywords=[]))
+                ast.copy_location(new, st)
+                ast.fix_missing_locations(new)
+                blk[i] = new
+                done = True
     return done
